@@ -135,6 +135,14 @@ def op_variant(m, sg, op):
             qz = None if t is None else t.quantization
             return None if qz is None or qz.scale is None or not len(qz.scale) else np.asarray(qz.scale, dtype=np.float64)
         sx, sw, sy = sc(x), sc(w), sc(y)
+        b_ = ins[3] if name == "TRANSPOSE_CONV" and len(ins) > 3 else (ins[2] if name != "TRANSPOSE_CONV" and len(ins) > 2 else None)
+        sb = sc(b_)
+        if sx is not None and sw is not None and sy is not None and sb is not None and len(sb) == len(sw) and np.all(sy > 0):
+            # finding D44: the kernels check |input_scale*filter_scale - bias_scale| / output_scale <= 0.02 in double precision; the bias scale is
+            # the float32 PRODUCT, so its rounding error (~1e-7 relative) fails the check once the output scale is ~1e5 times smaller than the
+            # product -- an output whose calibrated range is degenerate (constant 0: scale at the range floor) next to ordinary operands
+            if float(np.max(np.abs(sx[0] * sw - sb) / sy[0])) > 0.02:
+                var.append("bias-scale-check-vs-tiny-output-scale")
         if sx is not None and sw is not None and sy is not None and x.type in (TT.INT8, TT.INT16) and np.all(sy > 0):
             if float(np.min(sx[0] * sw / sy[0])) < 2.0 ** -32:
                 var.append("multiplier-underflow")
@@ -405,7 +413,7 @@ def compare_static(ctx, interp, case, res, fail, max_ops=4):
     if "runtime_weight" in case.info.get("tags", ()):
         # the weight operand is a second quantized ACTIVATION: its rounding error enters the result like that of one more operator, and
         # the 'float model with the dequantized constants' has no dequantized weight to account for it
-        nops += 2
+        nops += 3
     if nops > max_ops:
         return
     data = {k: v[:1] for k, v in case.data.items()}
@@ -446,6 +454,15 @@ def compare_static(ctx, interp, case, res, fail, max_ops=4):
     for sg_ in mo.subgraphs:
         for op_ in sg_.operators:
             name_ = pl.BO_NAME.get(mo.operatorCodes[op_.opcodeIndex].builtinCode)
+            if name_ in ("TANH", "LOGISTIC") and len(op_.inputs) and len(op_.outputs):
+                # a saturating activation turns ONE step of its quantized operand into up to L steps of output (L = 1/4 for logistic, 1
+                # for tanh): an operand tensor whose calibrated range is dominated by a few large values (step 14.5 for values around 4)
+                # loses the small values entirely -- inherent to the bit width, whatever the parameters
+                ti_, to_ = sg_.tensors[op_.inputs[0]], sg_.tensors[op_.outputs[0]]
+                qi_, qo_ = pl.quant_tuple(ti_), pl.quant_tuple(to_)
+                if qi_ and qo_ and ti_.type in (TT.INT8, TT.INT16):
+                    out_range = (65535 if to_.type == TT.INT16 else 255) * float.fromhex(qo_["scale"][0])
+                    lut_floor += min(out_range, (0.25 if name_ == "LOGISTIC" else 1.0) * float.fromhex(qi_["scale"][0]))
             if name_ in ("GELU", "TANH", "LOGISTIC", "RSQRT") and len(op_.inputs) and len(op_.outputs):
                 ti_, to_ = sg_.tensors[op_.inputs[0]], sg_.tensors[op_.outputs[0]]
                 qi_, qo_ = pl.quant_tuple(ti_), pl.quant_tuple(to_)
